@@ -5,8 +5,11 @@ cd /verif
 git -C /repo diff --quiet || { echo "refusing: /repo has uncommitted changes"; exit 2; }
 git -C /repo apply "$(realpath "$patch")" || { echo "patch does not apply"; exit 2; }
 start=$(date +%s)
+cp evidence/$prop.json /tmp/try_seeded.evidence 2>/dev/null
 ./check "$prop" --tier "$tier" > /tmp/try_seeded.out 2>&1; rc=$?
 end=$(date +%s)
+# (the evidence file describes the unchanged tree: put it back)
+cp /tmp/try_seeded.evidence evidence/$prop.json 2>/dev/null
 git -C /repo checkout -- .
 grep -E "^(violation|VIOLATION|OK|KNOWN|HARNESS)" /tmp/try_seeded.out | head -5
 echo "exit=$rc secs=$((end-start))"
